@@ -244,6 +244,12 @@ func (m *Machine) strEq(x, y value) *Term {
 				// string, both the last part of their strings: equal iff the
 				// instant is the one the literal denotes (Format is injective
 				// on instants at the layout's resolution)
+				if strings.HasPrefix(op.kind, "time:") && strings.Contains(op.kind, "@") {
+					// a rendering in a zone other than UTC against literal text: left open
+					m.undecidedEq++
+					u := st.Var(fmt.Sprintf("undecided-string-equality#%d", m.undecidedEq), KBool, 0)
+					return st.And(res, u)
+				}
 				if strings.HasPrefix(op.kind, "time:") && len(a) == 1 && len(b) == 1 {
 					layout := strings.TrimPrefix(op.kind, "time:")
 					if tt, err := time.Parse(layout, lit); err == nil && tt.UTC().Format(layout) == lit {
